@@ -1336,14 +1336,14 @@ def run(ctx):
         except common.TieBroken as e:
             ctx.tie_broken('hook:' + e.what, e.detail)
         timed('subproc', stream_subproc, ctx, pcache)
-    ctx.notes.append('wall per stream: ' + ' '.join(walls))
     ctx.notes.append('string hash randomisation of this (parent) process: %s; the subprocesses of stream subproc run under '
                      'fixed PYTHONHASHSEED values' % ('on' if sys.flags.hash_randomization else 'off'))
     if ctx.model_ok:
-        answers = common.run_driver_parallel('C16', reqs)
+        answers = timed('lean-driver', common.run_driver_parallel, 'C16', reqs)
         compare(ctx, cases, answers)
     else:
         ctx.notes.append('model did not build: correspondence skipped, oracle only')
+    ctx.notes.append('wall per stream: ' + ' '.join(walls))
     ctx.obligations['assumptions'] = [
         'CPython set/frozenset iteration order is universally quantified in the theorems (any order, any '
         'representative); the oracles sample it: forced orders in-process, PYTHONHASHSEED and allocation noise '
